@@ -2031,6 +2031,8 @@ impl<'data, P: Platform> GroupActivationInputs<'data, P> {
 
         if should_delay_processing {
             resources.delay_processing.push(group).unwrap();
+            #[cfg(wild_verif)]
+            crate::verif_ev!("DelayPush", "\"g\":{group_index}");
         } else {
             group.do_pending_work::<A>(resources, scope);
         }
